@@ -1,6 +1,6 @@
 """C11 Blake2b and the commitment function conform to RFC 7693."""
 import astq
-from rules import blake, membound
+from rules import blake, membound, portable
 
 LEVEL = 'other'
 TECHNIQUE = 'statement-by-statement structural comparison of the compression function with RFC 7693 (generated reference form), constants derived from first principles, CFG reachability for parameter rejection, linear guard reasoning on the buffering logic; evaluation of the byte-count bookkeeping slice of update / final'
@@ -13,6 +13,10 @@ CLAIM = ('Decides statically that the bundled Blake2b has the RFC 7693 structure
 LEVEL_NOTE = 'Trusted: clang AST (after macro expansion of G/ROUND); little-endian load/store helpers; that the RFC text encoded in the checker (sigma, G structure) is transcribed correctly (IV is computed, not transcribed).'
 EXPLANATION = 'B2-CONST, B2-COMPRESS (96 round statements + initialisation), B2-UPDATE, B2-REJECT, B2-KEYED, B2-COMMIT, B2-INBOUND. B2-STREAM, B2-FINAL.'
 
+CLAIM += (' The byte-order helpers through which Blake2b reads message words and writes the digest (load32/48/64, store32/48/64) produce / consume the little-endian image on five big-endian cross targets, whichever branch the byte-order predicate of endian.h selects there (PORT-ENDIAN).')
+EXPLANATION += ' PORT-ENDIAN (K6, K7a-d).'
+TECHNIQUE += '; byte-accurate abstract evaluation of the byte-order helpers on big-endian cross parses'
+
 
 def run(ctx, R):
     F = astq.Facts(ctx, 'K0')
@@ -24,3 +28,4 @@ def run(ctx, R):
     blake.rule_keyed(ctx, R, F)
     blake.rule_commit(ctx, R, F)
     membound.rule_b2_inbound(ctx, R, F)
+    portable.rule_endian(ctx, R)      # message words, parameter block and digest are little-endian on every target
